@@ -12,11 +12,12 @@ EXPLANATION = (
     "Contract-based: _pop_line_before_zid and _add_zid_to_line are verified against a specification of the rewritten first "
     "line written from the statement (ZID after the kind/priority prefix, replacing a leading YYYY-MM-DD word), for every "
     "first line of a bounded number of fully symbolic words (bounded-symbolic: reported as bounded). "
-    "The agreement of index and files after `db create`, the 'only first lines of ZID-less notes change' frame and the "
+    "_update_zo_file - the write-back both handlers use - is verified over the file-system model: the page becomes exactly the old lines with the first line of every note to update passed through the line function (every other line byte-identical), only the page and the hash file change, and only the page's own hash entry is refreshed (pages <= 3 / 5 lines, <= 2 notes, lines / ZIDs / line numbers fully symbolic, line function and value getter uninterpreted; _get_file_hash_path / _write_file_hash_to_disk / _hash_file assumed). "
+    "The agreement of index and files after `db create`, which notes are ZID-less, and the "
     "idempotence of repeated create/reindex runs are checked end to end on generated directories through the real command "
     "handlers, SQLite and the compiler (bounded)."
 )
-ASSUMPTIONS = ["A-ASCII", "str.split(' ') of ' '.join(words) is words when no word contains a space"]
+ASSUMPTIONS = ["A-FS", "the hash file exists when _update_zo_file runs (events are handled after the command wrote it)", "A-ASCII", "str.split(' ') of ' '.join(words) is words when no word contains a space"]
 TRUSTED = ["SQLAlchemy/SQLite, antlr4 (end-to-end part runs the real stack)", "z3 5.1 / cvc5 1.0.3", "pyvc symbolic interpreter (engine/)"]
 
 
